@@ -15,7 +15,8 @@ RULE = ('cases = tables mixing valid and invalid lexical/native values at any ro
         'regex x transform, through set_type and validate; non-trivial = at least one value is cast to a different native '
         'value or is invalid; distinct = distinct case digest'
         '; round 4: schema-level missingValues with and without the empty string'
-        '; round 8: set_type whose selector covers a resource none of whose fields it names (left untouched whatever its values)')
+        '; round 8: set_type whose selector covers a resource none of whose fields it names (left untouched whatever its values)'
+        '; round 9: date and datetime objects as values (a datetime in a date field is a date only at midnight)')
 TRUSTED = ['Coq 8.16.1 kernel + vm_compute', 'harness/p14.py printers and oracle',
            'tableschema Field.cast_value is "Table Schema\'s cast": it is the parameter [cast] of the theorems and is handed to the model as a table computed by the real library']
 ASSUMES = ['checked field names are distinct (NoDup fields)', 'custom handlers are pure predicates of (field, index) that also log']
